@@ -86,8 +86,11 @@ def r20_6(ctx: Ctx, e, dens: str, dparam):
     init = e.cls.methods['__init__']
     names = init.param_names[1:]
     n_sites = 0
-    for f in [m for m in e.cls.methods.values() if m.kind == 'function'] + \
-            [g for g in ctx.ix.funcs.values() if g.kind == 'function' and g.cls is None and g.module is e.cls.module]:
+    # instance methods only: a class-method / static / module-level factory builds *the* evolvent for a caller, there
+    # is no outer object whose queries the new one would answer (its arguments are checked at the Solver, R20.1)
+    for f in [m for m in e.cls.methods.values() if m.kind == 'function' and not m.is_static and
+              not m.is_classmethod and m.name != '__init__' or
+              (m.kind == 'function' and m.name == '__init__')]:
         if not any(isinstance(c, tuple) and c[0] == 'new' and ctx.ix.classes[c[1]].is_subclass_of(e.cls)
                    for nd in ast.walk(f.node) if isinstance(nd, ast.Call) for c in ctx.pta.callees(f, nd)):
             continue
